@@ -102,3 +102,5 @@ def run(ctx):
 
     from . import c01_deep
     c01_deep.run(ctx)
+    from . import c01_arrays
+    c01_arrays.run(ctx)
